@@ -57,6 +57,10 @@ func genC10(out *Out, r *Rng, tier string, n int, shard int) {
 		g.noGraph = r.Chance(70)
 		g.multiPct = 12
 		g.nativeInStr = true
+		if r.Chance(12) {
+			// empty strings, whatever the hasher makes of them: the document is rejected, or its leaves are what the standalone API gives
+			g.emptyOK = true
+		}
 		root := g.node(g.sch.Root, 0, r.Bool())
 		p := randomPresentation(r)
 		p.lexAlt = 0
